@@ -11,7 +11,9 @@ M = [
  ("m08_append_branch_le", ["C03", "C18"], [("buffer.go", "	if dst.Cap() < offset+length {", "	if dst.Cap() <= offset+length {")]),
  ("m09_append_always_grows", ["C03", "C18"], [("buffer.go", "	if dst.Cap() < offset+length {\n		dst.data = append(dst.data, make([]D, length)...)\n	} else {\n		dst.data = dst.data[:offset+length]\n	}", "	dst.data = append(dst.data[:offset:offset], make([]D, length)...)")]),
  ("m10_append_rereads_len", ["C03"], [("buffer.go", "	for i := 0; i < length; i++ {\n		dst.SetSample(i+offset, src.Sample(i))", "	for i := 0; i < src.Len(); i++ {\n		dst.SetSample(i+offset, src.Sample(i))")]),
- ("m11_align_up", ["C03"], [("signal.go", "SetCap(c - c%channels)", "SetCap(c + (channels-c%channels)%channels)")]),
+ ("m11_align_up", ["C03", "C12"], [("signal.go", "aligned := c - c%channels;", "aligned := c + (channels-c%channels)%channels;")]),
+ ("m50_trim_below_length", ["C12"], [("signal.go", "	v := reflect.ValueOf(s).Elem()\n	if aligned := c - c%channels; aligned >= v.Len() {\n		v.SetCap(aligned)\n	}", "	reflect.ValueOf(s).Elem().SetCap(c - c%channels)")]),
+ ("m51_trim_guard_strict", ["C03"], [("signal.go", "aligned >= v.Len()", "aligned > v.Len()")]),
  ("m12_appendsample_no_guard", ["C04", "C18"], [("buffer.go", "	if len(b.data) == cap(b.data) {\n		return\n	}\n	b.data = append(b.data, v)", "	b.data = append(b.data, v)")]),
  ("m13_appendsample_guard_off_by_one", ["C04"], [("buffer.go", "	if len(b.data) == cap(b.data) {\n		return\n	}\n	b.data = append(b.data, v)", "	if len(b.data) == cap(b.data)-1 {\n		return\n	}\n	b.data = append(b.data, v)")]),
  ("m14_conv_length_from_src", ["C05"], [("signal.go", "func SignedAsFloat[S constraints.Signed, D constraints.Float](src *Buffer[S], dst *Buffer[D]) int {\n	mustSame(src.Channels(), dst.Channels(), diffChannels)\n	// cap length to destination capacity.\n	length := min(src.Len(), dst.Len())", "func SignedAsFloat[S constraints.Signed, D constraints.Float](src *Buffer[S], dst *Buffer[D]) int {\n	mustSame(src.Channels(), dst.Channels(), diffChannels)\n	// cap length to destination capacity.\n	length := min(src.Len(), dst.Cap())")]),
